@@ -25,6 +25,10 @@ type seqItem struct {
 	Tag    uint32 `json:"tag"`
 	Local  byte   `json:"local"`
 	BE     bool   `json:"be"`
+	// Compressed: carry the message with a compressed-timestamp record
+	// header (local types 0-3 only)
+	Compressed bool `json:"compressed,omitempty"`
+	TimeOffset byte `json:"time_offset,omitempty"`
 }
 
 type seqCase struct {
@@ -107,6 +111,10 @@ func build(c seqCase) *fitmodel.Stream {
 			slots[l] = &key{it.Global, it.BE}
 		}
 		r := fitmodel.Rec{Local: l}
+		if it.Compressed && l <= 3 {
+			r.Compressed = true
+			r.TimeOffset = it.TimeOffset & 0x1F
+		}
 		if it.Global == 0 {
 			r.Raw = append(r.Raw, byte(c.FileType))
 		}
@@ -281,7 +289,13 @@ func drawSeq(d gen.D) seqCase {
 		default:
 			g = unk[d.Int(0, len(unk)-1, "u")]
 		}
-		c.Items = append(c.Items, seqItem{Global: g, Tag: uint32(i + 1), Local: byte(d.Int(0, 15, "l")), BE: d.Chance(30, "be")})
+		it := seqItem{Global: g, Tag: uint32(i + 1), Local: byte(d.Int(0, 15, "l")), BE: d.Chance(30, "be")}
+		if d.Int(0, 4, "compr") == 0 {
+			it.Local = byte(d.Int(0, 3, "cl"))
+			it.Compressed = true
+			it.TimeOffset = byte(d.Int(0, 31, "toff"))
+		}
+		c.Items = append(c.Items, it)
 	}
 	return c
 }
@@ -325,7 +339,7 @@ func TestC03(t *testing.T) {
 			for _, g := range prof.MsgNums() {
 				other := hosted[int(g)%len(hosted)]
 				c := seqCase{FileType: int(ft), Items: []seqItem{
-					{Global: g, Tag: 1, Local: 1}, {Global: other, Tag: 2, Local: 2}, {Global: g, Tag: 3, Local: 1, BE: true}, {Global: g, Tag: 4, Local: 3},
+					{Global: g, Tag: 1, Local: 1, Compressed: true, TimeOffset: 7}, {Global: other, Tag: 2, Local: 2}, {Global: g, Tag: 3, Local: 1, BE: true}, {Global: g, Tag: 4, Local: 3},
 				}}
 				pairs++
 				if msg, ok := checkSeq(rec, c); !ok {
